@@ -131,6 +131,19 @@ impl EstimatedLog2 for Repr {
     fn log2_bounds(&self) -> (f32, f32) {
         let (n_lb, n_ub) = self.numerator.log2_bounds();
         let (d_lb, d_ub) = self.denominator.log2_bounds();
-        (n_lb - d_ub, n_ub - d_lb)
+        // the f32 subtractions round to nearest: widen by one ulp to keep the enclosure
+        let (lb, ub) = (n_lb - d_ub, n_ub - d_lb);
+        (
+            if lb.is_finite() {
+                dashu_base::utils::next_down(lb)
+            } else {
+                lb
+            },
+            if ub.is_finite() {
+                dashu_base::utils::next_up(ub)
+            } else {
+                ub
+            },
+        )
     }
 }
